@@ -312,8 +312,12 @@ def scenario(args):
                         info["unexpected_conflict"] = err[-200:]
         elif tmpl in ("reset_soft", "reset_mixed"):
             ai_commit(w, r, shared)
-            if r.chance(1, 2):
-                w.op_edit(actor=r.pick(SESSIONS), path="c d.py")      # pending work elsewhere
+            if r.chance(2, 3):
+                w.op_edit(actor=r.pick(SESSIONS), path="c d.py", region="bottom", kinds=("ins",))   # pending work elsewhere
+                if r.chance(1, 2):
+                    # ... which a person then shifts by typing above it, with no checkpoint (plain editor save):
+                    # only the reset's own pre-command checkpoint can record that
+                    w.op_edit(actor="H", path="c d.py", region="top", kinds=("ins",))
             w.git("reset", "--soft" if tmpl == "reset_soft" else "--mixed", "HEAD~1")
             w.op_commit("recommit")
         elif tmpl in ("stash_pop", "stash_pop_shift"):
